@@ -1000,7 +1000,18 @@ func cmdDeserRecords(args []string) int {
 			}
 			off += len(one)
 		}
-		switch m := r.Intn(7); {
+		switch m := r.Intn(8); {
+		case m == 7 && len(pf) > 0: // the largest lengths the prefix can express (offset+length arithmetic)
+			p := pf[r.Intn(len(pf))]
+			for j := 0; j < p.w; j++ {
+				data[p.off+j] = 255
+			}
+			data[p.off] = byte(256 - 1 - r.Intn(10))
+			if p.w == 8 && r.Intn(4) > 0 {
+				data[p.off+7] = 0x7f // <= MaxInt64
+			} else if r.Intn(2) == 0 {
+				data[p.off+p.w-1] = 0x7f
+			}
 		case m >= 5 && len(pf) > 0: // a small length followed by a short tail
 			p := pf[r.Intn(len(pf))]
 			for j := 0; j < p.w; j++ {
